@@ -352,6 +352,8 @@ def run(rep):
     rep.notes["concurrent_executions"] = ncc
     if len(rep.violations) < 10:
         long_history(rep)
+    if len(rep.violations) < 10:
+        route_history(rep)
     # the whole stack of one interface: real node, Worker loops, Bromelia.main, per-message threads (spec/Stack.tla)
     if len(rep.violations) < 10:
         from . import stack
@@ -387,6 +389,11 @@ def replay(rep, path):
     if r.get("kind") == "stack":
         from . import stack
         return stack.replay(rep, r)
+    if r.get("kind") == "route-history":
+        route_history(rep)
+        rep.states, rep.transitions = 1, 1
+        rep.sample(r)
+        return rep.finish()
     if r.get("kind") == "long-history":
         long_history(rep)
         rep.states, rep.transitions = 1, 1
@@ -417,6 +424,43 @@ def replay(rep, path):
     rep.states, rep.transitions = 1, 1
     rep.sample(r)
     return rep.finish()
+
+
+def route_history(rep):
+    """Routes registered and replaced after requests have already been dispatched (an application that declares routes while it
+    runs): every request reaches the function registered for its (Application-ID, command code) pair at that moment."""
+    rng = random.Random(rep.seed * 7919 + 132)
+    router = Router()
+    ran = []
+
+    def fn(tag):
+        def handler(request):
+            ran.append(tag)
+            return make_answer(request, rng)
+        return handler
+    steps = [("reg", "a1", "c1", "f1"), ("req", "a1", "c1", "f1"), ("reg", "a1", "c2", "f2"), ("req", "a1", "c2", "f2"), ("req", "a1", "c1", "f1"),
+             ("reg", "a1", "c1", "f3"), ("req", "a1", "c1", "f3"), ("reg", "a2", "c2", "f4"), ("req", "a2", "c2", "f4"), ("req", "a1", "c2", "f2"),
+             ("reg", "a2", "c2", "f5"), ("req", "a2", "c2", "f5"), ("req", "a1", "c1", "f3")]
+    k = 0
+    for op, a, c, tag in steps:
+        if op == "reg":
+            router.register(app_bytes(a), cmd_bytes(c), fn(tag))
+            continue
+        k += 1
+        req = make_request(a, c, k, rng)
+        rep.case(("route-history", k))
+        n0 = len(ran)
+        replay = {"kind": "route-history", "step": k}
+        try:
+            with guard(20, "callback_route"):
+                queued, exc = router.dispatch(req)
+        except BaseException as e:
+            rep.violation(f"request {k} for ({a}, {c}) after routes were added / replaced at run time: callback_route raised {type(e).__name__}: {e}", replay)
+            return
+        if ran[n0:] != [tag] or len(queued) != 1:
+            rep.violation(f"request {k} for ({a}, {c}): route functions run {ran[n0:]}, registered at that moment: {tag}; {len(queued)} answer(s) queued "
+                          "(routes were added / replaced after earlier requests had been dispatched)", replay)
+            return
 
 
 def long_history(rep):
